@@ -434,6 +434,19 @@ class SignsTable:
         return SSign(self.zf(a.t, b.t), self.nf(a.t, b.t))
 
 
+    def kvc_getattr(self, interp, name):
+        if name == 'get':
+            # dict.get does not call __missing__: in algebras above six dimensions the table is filled lazily, so an entry that
+            # was not read through signs[...] before is simply absent for .get (whether it is present is unknown here)
+            table = self
+
+            def get(pair, default=None):
+                present = interp.ctx.decide(z3.Bool(interp.ctx.fresh('signs_entry_already_materialised')))
+                return table.kvc_getitem(interp, pair) if present else default
+            return get
+        raise OutOfSubset(f'signs.{name} is not modelled')
+
+
 class SymAlgebra:
     """Algebra as seen by the codegen functions: len(), signs, d.  N = len(algebra) = 2**d."""
 
